@@ -21,14 +21,14 @@ TAG = "X22"
 FAST_ENV = {"ASAN_OPTIONS": vlib.ASAN_ENV + ":symbolize=0"}
 
 CFG = {
-    "quick": dict(mc=["MC_Mapping.cfg", "MC_Mapping_k3.cfg", "MC_Mapping_cxx.cfg", "MC_Mapping_text.cfg"],
+    "quick": dict(mc=["MC_Mapping.cfg", "MC_Mapping_cxx.cfg", "MC_Mapping_text.cfg"],
                   gen=[("Gen_Mapping.cfg", "c"), ("Gen_Mapping_cxx.cfg", "cxx"), ("Gen_Mapping_text.cfg", "c"),
                        ("Gen_Mapping_pure.cfg", "c")],
                   nhist=12, steps=70),
-    "thorough": dict(mc=["MC_Mapping_t.cfg", "MC_Mapping_k4_t.cfg", "MC_Mapping_cxx_t.cfg", "MC_Mapping_text_t.cfg"],
+    "thorough": dict(mc=["MC_Mapping_t.cfg", "MC_Mapping_k3.cfg", "MC_Mapping_k4_t.cfg", "MC_Mapping_cxx_t.cfg", "MC_Mapping_text_t.cfg"],
                      gen=[("Gen_Mapping_t.cfg", "c"), ("Gen_Mapping_d3_t.cfg", "c"), ("Gen_Mapping_cxx_t.cfg", "cxx"),
                           ("Gen_Mapping_text_t.cfg", "c"), ("Gen_Mapping_pure_t.cfg", "c")],
-                     nhist=60, steps=140),
+                     nhist=40, steps=120),
 }
 # the universe of the trace configurations (spec/Trace_Mapping.tla: TDims, TMasks, TClis, TPaths); the init event
 # carries it and TLC refuses a trace whose universe is not the configuration's
@@ -317,25 +317,25 @@ def trace_signature(ev, impl, beh):
     return "x22:%s:trace:%s:rejected:%s" % (impl, ev["a"], cls)
 
 
-def binding_b(ck, exes, rng, n, steps, nt):
-    info = {}
-    total = good = 0
-    sample = None
+def binding_b(exes, rng, n, steps):
+    """runs beside binding A in a thread: returns what is to be added to the Check (no shared state is touched)"""
+    out = {"violations": [], "nt": set(), "transitions": 0, "good": 0, "n": 0, "notes": {}, "sample": None}
     for impl, tcfg in (("c", "Trace_Mapping.cfg"), ("cxx", "Trace_Mapping_cxx.cfg")):
         hists = [gen_history(rng, impl, steps) for _ in range(n if impl == "c" else max(3, n // 2))]
         recs, _ = vlib.run_driver(exes[impl], script(hists, quiet_prefix=False))
         events = vlib.merge_trace(hists, recs)
         tag = "Trace_Mapping-" + impl
         ok, matched, tres = vlib.validate_trace("Trace_Mapping", events, cfg=tcfg, tag=tag, xss="512m")
-        ck.cov["transitions"] += tres.generated
+        out["transitions"] += tres.generated
         if not ok:      # once more before reporting
             ok2, matched2, _ = vlib.validate_trace("Trace_Mapping", events, cfg=tcfg, tag=tag, xss="512m")
             if not ok2 and matched2 == matched:
                 ev = events[matched] if matched < len(events) else None
                 beh = hists[ev["b"]][:ev["i"] + 1] if ev else None
-                ck.violation(trace_signature(ev, impl, beh),
-                             {"binding": "B(trace validation)", "part": "x22", "impl": impl, "trace_cfg": tcfg,
-                              "matched_prefix": matched, "rejected_event": ev, "behaviour": beh, "tlc_tail": tres.out[-1500:]})
+                out["violations"].append((trace_signature(ev, impl, beh),
+                                          {"binding": "B(trace validation)", "part": "x22", "impl": impl, "trace_cfg": tcfg,
+                                           "matched_prefix": matched, "rejected_event": ev, "behaviour": beh,
+                                           "tlc_tail": tres.out[-1500:]}))
             else:
                 ok = ok2
         by = vlib.group_records(recs)
@@ -346,21 +346,18 @@ def binding_b(ck, exes, rng, n, steps, nt):
             lens = [(r.get("dbg") or {}).get("len", 0) for r in rs]
             maxlen = max([maxlen] + lens)
             if nontrivial_b(h, rs):
-                nt.add("b" + impl + callkey(h))
+                out["nt"].add("b" + impl + callkey(h))
             if ok or (bad_b is not None and b < bad_b):
-                good += 1
-        total += len(hists)
+                out["good"] += 1
+        out["n"] += len(hists)
         acts = {}
         for e in events:
             acts[e["a"]] = acts.get(e["a"], 0) + 1
-        info[impl] = {"histories": len(hists), "events": len(events), "events_matched": matched, "by_action": acts,
-                      "largest_table": maxlen, "tlc_wall_s": round(tres.wall, 1)}
-        if sample is None:
-            sample = [{"a": s["a"], "arg": s["arg"]} for s in hists[0][:7]]
-    ck.cov["traces_validated_against_impl"] += good
-    ck.cov["evaluations"] += total
-    ck.notes["x22_trace"] = info
-    return sample
+        out["notes"][impl] = {"histories": len(hists), "events": len(events), "events_matched": matched, "by_action": acts,
+                              "largest_table": maxlen, "tlc_wall_s": round(tres.wall, 1)}
+        if out["sample"] is None:
+            out["sample"] = [{"a": s["a"], "arg": s["arg"]} for s in hists[0][:7]]
+    return out
 
 
 # ---------------------------------------------------------------------------
@@ -385,15 +382,34 @@ def run_part(ck, tier):
     for t in gths:
         t.start()
     replayed = 0
+    bres = {}
+    brng = random.Random(ck.rng.randrange(1 << 30))
+
+    def traces():
+        try:
+            bres["out"] = binding_b(exes, brng, cfg["nhist"], cfg["steps"])
+        except Exception as e:
+            bres["out"] = e
+    bth = threading.Thread(target=traces)
+    bth.start()
     try:
         for (g, impl), t in zip(cfg["gen"], gths):
             t.join()
             replayed += binding_a(ck, exes, g, impl, nt, samples, exports[g])
-        brng = random.Random(ck.rng.randrange(1 << 30))
-        sample_b = binding_b(ck, exes, brng, cfg["nhist"], cfg["steps"], nt)
     finally:
-        for t in gths + mths:
+        for t in gths + mths + [bth]:
             t.join()
+    b = bres.get("out")
+    if isinstance(b, Exception) or b is None:
+        raise b if isinstance(b, vlib.MachineryError) else vlib.MachineryError("X22 trace validation: %r" % (b,))
+    for sig, det in b["violations"]:
+        ck.violation(sig, det)
+    nt |= b["nt"]
+    ck.cov["transitions"] += b["transitions"]
+    ck.cov["traces_validated_against_impl"] += b["good"]
+    ck.cov["evaluations"] += b["n"]
+    ck.notes["x22_trace"] = b["notes"]
+    sample_b = b["sample"]
     if len(mcres) != len(cfg["mc"]):
         raise vlib.MachineryError("X22 model checking run did not finish")
     for mc, res in sorted(mcres, key=lambda x: cfg["mc"].index(x[0])):
